@@ -190,7 +190,7 @@ TEXT = {
               "runtime monitoring: in-process bitwise differential + " + _ORACLE),
     "C07": _t("Queries x+k*P (k up to 1e6), images of both range ends and floats 1-3 ulps around them are compared with the exact periodic "
               "spline at the exactly wrapped float query, with a Lipschitz-aware bound for the rounding of the wrapped argument.",
-              "bound = spline tolerance + (2L + ...)*delta with exact L >= |S'| and delta = 4u(|q|+|x0|+P); circle distance",
+              "bound = spline tolerance + (2L + ...)*delta with exact L >= |S'| and delta = rounding of q-x0, k x rounding of the period, 4u(|q-x0|+|x0|+P); wrap in exact rationals; queries up to 2^1000 away, judged up to about 2^49 periods; 8 threads repeating far queries on a shared spline",
               "runtime monitoring: " + _ORACLE + " (exact wrap + exact periodic spline)"),
     "C08": _t("For a random lane j of n-d data (0..5 trailing axes, zero-length and non-square shapes, per-lane boundaries) results must "
               "not change in any bit when every other lane is replaced by NaN/inf/huge/random values and other boundaries are re-drawn; "
